@@ -358,6 +358,16 @@ def closeDrain (mode : Mode) : (count : Nat) → St → Bytes → Bool × St × 
           let r := closeDrain mode c st' av'
           (r.1, r.2.1, r.2.2.1, r.2.2.2 + 1)
 
+/-- the number of rounds (select() calls) of the same loop: `count--` ends every round, the round in which the Close
+frame is seen is the last one -/
+def drainRounds (mode : Mode) : (count : Nat) → St → Bytes → Nat
+  | 0, _, _ => 0
+  | c + 1, st, av =>
+    if av.length = 0 then drainRounds mode c st av + 1
+    else
+      match readFrame mode drainBuf (av.length + fsCap + 2) st av with
+      | (ret, st', av') => if recvCloseOf mode ret st' then 1 else drainRounds mode c st' av' + 1
+
 /-- `coap_ws_close` on an open session whose handshake is done (`up`), called by the application while `av` is
 available on the socket: the Close frame is written, `sent_close` set, then the drain loop -/
 def wsClose (mode : Mode) (st : St) (av : Bytes) : Bool × St × Bytes × Nat := closeDrain mode drainCount st av
@@ -391,5 +401,11 @@ def selfClose (mode : Mode) (accept : Bytes) (st : St) (chunk : Bytes) : Option 
   | none => none
   | some (st', av') =>
     if recvCloseOf mode .closed st' then some (true, st', av', 0) else some (closeDrain mode drainCount st' av')
+
+/-- select() rounds of the reader's own `coap_ws_close` (none when `recv_close` is already set) -/
+def selfCloseRounds (mode : Mode) (accept : Bytes) (st : St) (chunk : Bytes) : Nat :=
+  match refusalPoint mode accept (6 * (chunk.length + 1)) 0 st chunk with
+  | none => 0
+  | some (st', av') => if recvCloseOf mode .closed st' then 0 else drainRounds mode drainCount st' av'
 
 end Coap.M.Ws
